@@ -7,7 +7,7 @@ PROPS["C18"] = dict(
                "is a violation, and so is a thread whose digest differs from the same call sequence run alone.",
     level_note="Only executions actually scheduled are judged: evidence lists which pairs of operation kinds overlapped in time. libpcap/OpenSSL are uninstrumented (reports without a libtins frame are counted, not judged). "
                "After the barrier the monitor adds no synchronisation between workers (relaxed ticket counter, logs merged after join).",
-    phases=[dict(name="threads", harness="c18.cpp", flavor="tsan", mode="main", per_case_process=True, concurrency=4, cases=dict(quick=72, thorough=360), watchdog=300)],
+    phases=[dict(name="threads", harness="c18.cpp", flavor="tsan", mode="main", per_case_process=True, concurrency=4, cases=dict(quick=72, thorough=360), watchdog=900)],
     rule="case = (thread count in {2,4,8,16}, common first operation kind, per-thread seeds); distinct = distinct (pair of operation kinds that overlapped in time, thread count) plus the case itself",
     floors=dict(any={"distinct": 100, "thread_digests_equal": 400, "overlapping_operation_pairs": 20000, "cold-start:*": 4, "crypto:pbkdf2": 300, "build:reparsed": 2000, "follower:legacy-stream-ids": 2000, "build:own-copy-of-common-original": 3000, "build:reparsed-with-ip-tunnel": 200, "crypto:handshake-capture:keys-derived": 300, "crypto:session-keys-derived": 10000, "crypto:wpa2-explicit-keys": 1000, "op_done:*": 1000}),
     assumptions=["objects are never shared between threads; user-level registration (Allocators::register_allocator) does not happen while threads run",
